@@ -247,7 +247,7 @@ Lemma take_0 b : take 0 b = Ok ([], b).
 Proof. rewrite take_spec. destruct (N.leb_spec 0 (lenN b)); [reflexivity|lia]. Qed.
 
 Lemma bytes2_loop_0 short n b : bytes2_loop short n 0 b = Ok ([], b).
-Proof. destruct n; cbn [bytes2_loop]; rewrite take_0; reflexivity. Qed.
+Proof. destruct n; reflexivity. Qed.
 
 (* ---------- the round trip ---------- *)
 Theorem ser_de utf8 e : forall v d bs, wf utf8 v = true -> ser e d v = Ok bs ->
@@ -255,7 +255,7 @@ Theorem ser_de utf8 e : forall v d bs, wf utf8 v = true -> ser e d v = Ok bs ->
 Proof.
   induction v as [|x IH|b|i z|fk fbs|s|l IH|bs0|k l IH|k l|l IH|id x IH] using Value_ind';
     intros d bs Hwf Hser f r Hf; (destruct f as [|f]; [cbn in Hf; lia|]);
-    cbn [ser] in Hser; depth_ok Hser; cbn [de]; unfold de_body; rewrite Hd.
+    cbn [ser] in Hser; depth_ok Hser; cbn [de]; unfold de_body, de_kind; rewrite Hd.
   - (* None *) ok_inv Hser. reflexivity.
   - (* Some *) bind_ok Hser b E. ok_inv Hser. cbn [app].
     change (kind_of_byte (kb KSome)) with (Some KSome). cbn iota.
@@ -306,9 +306,9 @@ Proof.
         rewrite bytes2_loop_0. reflexivity.
       * rewrite Hlen in E. ok_inv E. rewrite <- !app_assoc.
         rewrite varint_roundtrip by (try lia; apply u32_fits; exact Hlen). cbn [bind].
-        destruct f as [|f]; [lia|]. cbn [bytes2_loop]. rewrite take_app.
+        destruct f as [|f]; [lia|]. cbn [bytes2_loop].
         destruct (N.eqb_spec (lenN (b0 :: bs0)) 0) as [E0|_]; [rewrite lenN_cons in E0; lia|].
-        rewrite varint_roundtrip by (try lia; reflexivity). cbn [bind].
+        rewrite take_app. rewrite varint_roundtrip by (try lia; reflexivity). cbn [bind].
         rewrite bytes2_loop_0. cbn [bind]. rewrite app_nil_r. reflexivity.
   - (* Map *) cbn [wf] in Hwf. apply andb_prop in Hwf as [Hwf Hall]. apply andb_prop in Hwf as [Hlen Hnd].
     cbn [fuel_of] in Hf. rewrite forallb_forall in Hall. rewrite Forall_forall in IH.
